@@ -99,6 +99,9 @@ func init() {
 		e.c13StmtDef(s, pub, "NewPublisher", "newPublisherStmts")
 		e.c13StmtDef(s, pub, "Publisher.KeepAlive", "keepAliveStmts")
 		e.c13Cond(t, s, reg, "cluster.setupWatch", 1, "setupWatchRevGuard", "setupWatch: watch from the revision after the loaded one")
+		e.c13AliasFact(s, reg, "cluster.handleWatchEvents", "listeners", "handleWatchEventsListeners")
+		e.c13AliasFact(s, reg, "cluster.handleChanges", "listeners", "handleChangesListeners")
+		e.c13AliasFact(s, sub, "container.notifyChange", "listeners", "notifyChangeListeners")
 		e.c13CallLoopDepth(s, reg, "cluster.load", "WithTimeout", "loadTimeoutLoopDepth")
 		e.c13CallLoopDepth(s, reg, "cluster.load", "cancel", "loadCancelLoopDepth")
 		e.c13CallLoopDepth(s, reg, "cluster.load", "Get", "loadGetLoopDepth")
@@ -540,4 +543,43 @@ func (e *emitter) c13CallLoopDepth(s *source, rel, goName, callee, leanName stri
 	}
 	walk(fd.Body, 0, false)
 	e.stringList(leanName, "loop depth of the `"+callee+"` calls of `"+goName+"` in "+rel, out)
+}
+
+// c13AliasFact: how the named local variable of the function is defined (first `name := expr`):
+// `copy of <x>` for `append(<nil slice conversion>, x...)`, `alias of <expr>` for anything else, and what the
+// `for … range` loops over the variable are (`range <name>`).
+func (e *emitter) c13AliasFact(s *source, rel, goName, name, leanName string) {
+	fd := s.findFunc(rel, goName)
+	if fd == nil {
+		e.errors = append(e.errors, fmt.Sprintf("function %s not found in %s", goName, rel))
+		e.stringList(leanName, "MISSING: "+goName+" in "+rel, []string{"MISSING"})
+		return
+	}
+	var out []string
+	ast.Inspect(fd.Body, func(n ast.Node) bool {
+		switch x := n.(type) {
+		case *ast.AssignStmt:
+			if len(x.Lhs) == 1 && len(x.Rhs) == 1 {
+				if id, ok := x.Lhs[0].(*ast.Ident); ok && id.Name == name {
+					fact := "alias of " + s.src(x.Rhs[0])
+					if c, ok := x.Rhs[0].(*ast.CallExpr); ok && c.Ellipsis.IsValid() && len(c.Args) == 2 {
+						if f, ok := c.Fun.(*ast.Ident); ok && f.Name == "append" {
+							if conv, ok := c.Args[0].(*ast.CallExpr); ok && len(conv.Args) == 1 {
+								if nl, ok := conv.Args[0].(*ast.Ident); ok && nl.Name == "nil" {
+									fact = "copy of " + s.src(c.Args[1])
+								}
+							}
+						}
+					}
+					out = append(out, fact)
+				}
+			}
+		case *ast.RangeStmt:
+			if id, ok := x.X.(*ast.Ident); ok && id.Name == name {
+				out = append(out, "range "+name)
+			}
+		}
+		return true
+	})
+	e.stringList(leanName, "definition and use of `"+name+"` in `"+goName+"` ("+rel+")", out)
 }
